@@ -8,7 +8,7 @@ G3 cast_impl_S / into_impl_S apply `?` to exactly the slots of S, build the targ
 G8 upcast / From<With_S> is the bit-preserving opaque conversion.
 """
 import itertools, re
-from lib import corpus, facts, mir, model, report, forward
+from lib import corpus, facts, mir, model, report, forward, sem
 
 BRANCH = "std::ops::Try::branch"
 OPS = ("check", "as_ref", "as_mut", "cast", "into")
@@ -114,6 +114,55 @@ def success_rule(ck, body, key, fname, succ_bb, S):
           sample={"fn": fname, "success_paths": n_s, "failing_paths": n_f})
 
 
+OPT_ADT = "std::option::Option"
+
+
+def sem_outcomes(ev, fn, bf, opt):
+    """Case summaries of a group method over a symbolic `self` whose optional vtable slots are symbolic Options.
+    Returns (outcomes, me, slot terms) or None when the body cannot be summarised."""
+    me = ("sym", "self")
+    idx = {n: i for i, (n, _) in enumerate(bf)}
+    slot = {n: ("fld", me, idx[n], n) for n in opt}
+    for n in opt:
+        ev.hint(slot[n], OPT_ADT)
+    ev.nonnull.add(me)
+    outs = ev.run(fn, [me])
+    if not outs or any(o.kind != "ret" for o in outs):
+        return None
+    return outs, me, slot
+
+
+def presence(o, slot):
+    pres = {}
+    for c in o.conds:
+        if c[0] == "discr":
+            for n, t in slot.items():
+                if c[1] == t:
+                    pres[n] = "some" if c[2] == "Some" else "none"
+    return pres
+
+
+def sem_success_rule(ck, key, fname, outs, slot, S, is_success):
+    """success <=> every requested slot is Some: each successful case has all of S present, each failing case has one of S absent."""
+    ok_s = ok_f = True
+    n_s = n_f = 0
+    bad = None
+    for o in outs:
+        pres = presence(o, slot)
+        if is_success(o):
+            n_s += 1
+            if not all(pres.get(x) == "some" for x in S):
+                ok_s, bad = False, pres
+        else:
+            n_f += 1
+            if not any(pres.get(x) == "none" for x in S):
+                ok_f, bad = False, pres
+    ck.ob("G3-success-iff-all-requested-present", key, ok_s and ok_f and n_s >= 1,
+          "%s: %s (case %s; requested %s)" % (fname, "succeeds without every requested vtable being present" if not ok_s else
+                                              "can fail although every requested vtable is present" if not ok_f else "has no successful case", bad, list(S)),
+          sample={"fn": fname, "success_cases": n_s, "failing_cases": n_f})
+
+
 def check_group(ck, m, grp, label, impl_expect):
     key0 = "%s/%s" % (label, grp.base["path"])
     bf = model.adt_fields(grp.base)
@@ -123,6 +172,7 @@ def check_group(ck, m, grp, label, impl_expect):
     for f in m.facts.fns(m.unit):
         if f.get("impl_self_adt") == grp.base["path"] and "impl_trait" not in f:
             inherent[f["name"]] = f
+    ev = sem.Evaluator({f["path"]: f for f in m.facts.fns(m.unit)}, {}, inline=lambda p: "cglue_internal" in p or "::{closure" in p)
     subsets = []
     for r in range(1, len(opt) + 1):
         for S in itertools.combinations(opt, r):
@@ -139,6 +189,78 @@ def check_group(ck, m, grp, label, impl_expect):
                 continue
             n_ops += 1
             body = mir.Body(fn)
+            so = sem_outcomes(ev, fn, bf, opt)
+            if so is not None and op == "check":
+                outs, me, slot = so
+                if all(sem.strip(o.ret)[0] == "const" for o in outs):
+                    sem_success_rule(ck, key, fname, outs, slot, S, lambda o: sem.strip(o.ret)[1] == 1)
+                    ck.ob("G5-check-is-as-ref-some", key, True, sample={"fn": fname, "form": "true exactly when every requested vtable is present (case summaries)"})
+                    continue
+            if so is not None and op in ("as_ref", "as_mut"):
+                outs, me, slot = so
+
+                def reinterpreted(v, me=me):
+                    v = sem.strip(v)
+                    if v[0] == "agg" and v[3] == "Some" and v[4]:
+                        return sem.strip(v[4][0]) == me
+                    return False
+
+                def failed(v):
+                    v = sem.strip(v)
+                    return v[0] == "agg" and v[3] == "None"
+                if all(reinterpreted(o.ret) or failed(o.ret) for o in outs):
+                    target = None
+                    for i in sorted(body.live_blocks()):
+                        for st_ in body.blocks[i]["s"]:
+                            if st_["k"] == "assign" and st_["r"]["k"] == "cast" and st_["r"]["ck"] == "PtrToPtr":
+                                mm = re.search(r"::(\w+)<", st_["r"]["ty"])
+                                if mm and mm.group(1) in grp.withs:
+                                    target = mm.group(1)
+                    if not ck.ob("G4-reinterprets-as-with", key, target in grp.withs, "%s does not reinterpret the group as a With-variant" % fname):
+                        continue
+                    ck.ob("G4-reinterprets-self", key, True, sample={"fn": fname})
+                    tf = model.adt_fields(grp.withs[target])
+                    req = {n for n, f in tf if n in opt and not is_opt(f["ty"])}
+                    ck.ob("G4-requested-equals-required-slots", key, req == Sset,
+                          "%s reinterprets as %s whose non-Option optional slots are %s, but validates %s" % (fname, target, sorted(req), list(S)),
+                          sample={"fn": fname, "target": target, "required": sorted(req)})
+                    sem_success_rule(ck, key, fname, outs, slot, S, lambda o: reinterpreted(o.ret))
+                    continue
+            if so is not None and op in ("cast", "into"):
+                outs, me, slot = so
+                want_pool = grp.withs if op == "cast" else grp.finals
+
+                def built(v):
+                    v = sem.strip(v)
+                    if v[0] == "agg" and v[3] == "Some" and v[4]:
+                        inner = sem.strip(v[4][0])
+                        if inner[0] == "agg" and inner[1] == "adt" and inner[2].rsplit("::", 1)[-1] in want_pool:
+                            return inner
+                    return None
+                if all(built(o.ret) is not None or sem.variant_of(o.ret) == "None" for o in outs) and any(built(o.ret) is not None for o in outs):
+                    targets = {built(o.ret)[2].rsplit("::", 1)[-1] for o in outs if built(o.ret) is not None}
+                    target = sorted(targets)[0]
+                    if not ck.ob("G3-builds-variant", key, len(targets) == 1, "%s builds %s" % (fname, sorted(targets))):
+                        continue
+                    tf = model.adt_fields(want_pool[target])
+                    req = {n for n, f in tf if n in opt and not is_opt(f["ty"])}
+                    ck.ob("G4-requested-equals-required-slots", key, req == Sset, "%s targets %s whose required optional slots are %s, requested %s" % (fname, target, sorted(req), list(S)))
+                    sem_success_rule(ck, key, fname, outs, slot, S, lambda o: built(o.ret) is not None)
+                    idx = {n: i for i, (n, _) in enumerate(bf)}
+                    names = [n for n, _ in tf]
+                    for o in outs:
+                        agg = built(o.ret)
+                        if agg is None:
+                            continue
+                        ck.ob("G3-all-fields-set", key, len(agg[4]) == len(names), "%s does not initialise every field of %s" % (fname, target))
+                        for fname_, val in zip(names, agg[4]):
+                            val = sem.strip(val)
+                            if fname_ in Sset:
+                                ok = val == ("pay", slot[fname_], "Some", 0)
+                            else:
+                                ok = val == ("fld", me, idx.get(fname_, -1), fname_) or (fname_ in slot and val == o.state.refined.get(slot[fname_]))
+                            ck.ob("G3-field-moved-by-name", "%s.%s" % (key, fname_), ok, "%s: field %s of the result is %s, expected the group's own %s" % (fname, fname_, sem.fmt(val)[:120], fname_))
+                    continue
             if op == "check":
                 o = body.origin_local(0)
 
@@ -224,6 +346,34 @@ def check_group(ck, m, grp, label, impl_expect):
             key = "%s/%s::enable_%s" % (key0, owner["name"], x)
             if not ck.ob("G6-enable-exists", key, fn is not None, "%s has no enable_%s" % (owner["name"], x)):
                 continue
+            # semantic form: the result is `self` with exactly slot n replaced by Some(Default::default()) -- struct update, field assignment
+            # on `mut self`, or a full literal
+            me = ("sym", "self")
+            outs = ev.run(fn, [me])
+            if len(outs) == 1 and outs[0].kind == "ret":
+                r = sem.strip(outs[0].ret)
+                vals = None
+                if r[0] == "agg" and r[1] == "adt" and len(r[4]) == len(own_fields):
+                    vals = dict(zip(own_fields, r[4]))
+                elif r[0] == "upd" and sem.strip(r[1]) == me:
+                    vals = {nm: ("fld", me, i, nm) for i, nm in enumerate(own_fields)}
+                    for pp, v in r[2]:
+                        if len(pp) == 1 and pp[0][0] == "f":
+                            vals[pp[0][2]] = v
+                        else:
+                            vals = None
+                            break
+                if vals is not None:
+                    ok = True
+                    for i, nm in enumerate(own_fields):
+                        v = sem.strip(vals[nm])
+                        if nm == n:
+                            ok = ok and v[0] == "agg" and v[3] == "Some" and sem.strip(v[4][0])[0] == "opq" and sem.strip(v[4][0])[2][1] == "std::default::Default::default"
+                        else:
+                            ok = ok and v == ("fld", me, i, nm)
+                    ck.ob("G6-enable-sets-only-its-slot", key, ok, "%s::enable_%s must set %s = Some(Default::default()) and keep every other field: %s" % (owner["name"], x, n, sem.fmt(outs[0].ret)[:200]),
+                          sample={"fn": owner["name"] + "::enable_" + x})
+                    continue
             body = mir.Body(fn)
             ret = body.origin_local(0)
             ok = ret[0] == "agg" and ret[1] == owner["path"] and list(ret[3]) == own_fields
